@@ -269,6 +269,12 @@ def run(ctx):
         if const:
             ctx.check(rv == 'new', 'C12.4', 'join:replace-when-constant', f_join.loc(), 'when the old or the new matcher is * or !, the new one replaces the old', 'returns %s' % rv)
         else:
+            touched_ = any(e.kind == 'store' and (e.target or '').startswith(('new.', 'old.')) for e in p.events)
+            if rv != '_as_list(new)' and (rv not in ('new', 'old', 'None') or touched_):
+                # join was written anew (the listified matcher is built some other way): the list algebra below is stated over `_as_list(new)`
+                # and cannot read this path - undecided.  (A path that hands back `new` or `old` untouched where both are real matchers is
+                # judged: nothing was accumulated.)
+                raise AnalysisError('C12.4: join() returns `%s` where the rule expects the listified new matcher `_as_list(new)`: cannot read what was accumulated' % rv[:80])
             ctx.check('old_const' in facts and 'new_const' in facts and rv == '_as_list(new)', 'C12.4', 'join:extend-otherwise', f_join.loc(),
                       'otherwise the (listified) new matcher is extended and returned', 'returns %s with facts %s' % (rv, facts))
             # What the two lists of the returned matcher hold at the end of the path, as terms of a small list algebra over the four
